@@ -3,7 +3,7 @@ import ast
 import itertools
 import re
 
-from ..core import AnalysisError, src, body_walk, walk_no_nested, chain
+from ..core import AnalysisError, src, body_walk, walk_no_nested, chain, qual_of
 from ..fold import Folder
 from ..absint import Interp, Sym, TriVal, text_of
 from ..guards import NONE, FALSY, TRUTHY, TRI
@@ -318,12 +318,7 @@ def check(chk):
     # adders
     for q in ('BaseCQLStatement._add_where_clause', 'BaseCQLStatement.add_conditional_clause', 'AssignmentStatement._add_assignment_clause', 'DeleteStatement.add_field'):
         f = mod.func(q)
-        s = [src(x) for x in f.body if not (isinstance(x, ast.Expr) and isinstance(x.value, ast.Constant))]
-        idx = dict((t, i) for i, t in enumerate(s))
-        sets = [t for t in s if t.endswith('.set_context_id(self.context_counter)')]
-        adv = [t for t in s if t.startswith('self.context_counter += ') and t.endswith('.get_context_size()')]
-        app = [t for t in s if '.append(' in t]
-        good = len(sets) == 1 and len(adv) == 1 and len(app) == 1 and idx[sets[0]] < idx[adv[0]] and sets[0].split('.')[0] == adv[0].split('+= ')[1].split('.')[0]
+        good = _adder_ok(mod, f)
         chk.judge(good, 'C37.adders', f, '%s: set id, advance by size, append' % q, 'adder no longer assigns then advances the counter by the clause size')
     # batch
     q = chk.repo.mod(QUERY)
@@ -351,3 +346,47 @@ def _parents(n):
     while p is not None:
         yield p
         p = parent(p)
+
+
+def _set_then_advance(stmts, var):
+    """in the statement list: var.set_context_id(self.context_counter) and, after it, the counter advanced by var.get_context_size() (each exactly once)"""
+    sets = [i for i, st in enumerate(stmts) if src(st) == '%s.set_context_id(self.context_counter)' % var]
+    adv = [i for i, st in enumerate(stmts) if src(st) in ('self.context_counter += %s.get_context_size()' % var,
+                                                          'self.context_counter = self.context_counter + %s.get_context_size()' % var,
+                                                          'self.context_counter = %s.get_context_size() + self.context_counter' % var)]
+    return len(sets) == 1 and len(adv) == 1 and sets[0] < adv[0]
+
+
+def _adder_ok(mod, f):
+    """the adder numbers exactly the clause it appends: inline (set id, advance by its size) or through a method of the statement class that does
+    that for each clause of the sequence it is given, called with a one-element display holding the clause"""
+    body = [x for x in f.body if not (isinstance(x, ast.Expr) and isinstance(x.value, ast.Constant))]
+    apps = [st for st in body if isinstance(st, ast.Expr) and isinstance(st.value, ast.Call) and isinstance(st.value.func, ast.Attribute) and st.value.func.attr == 'append'
+            and len(st.value.args) == 1 and isinstance(st.value.args[0], ast.Name)]
+    if len(apps) != 1:
+        return False
+    var = apps[0].value.args[0].id
+    if _set_then_advance(body, var):
+        return True
+    # the same through a loop over a one-element display (an inlined numbering helper)
+    for st in body:
+        if isinstance(st, ast.For) and isinstance(st.iter, (ast.Tuple, ast.List)) and [src(e) for e in st.iter.elts] == [var] and isinstance(st.target, ast.Name) and not st.orelse \
+                and len(st.body) == 2 and _set_then_advance(st.body, st.target.id):
+            return True
+    calls = [st.value for st in body if isinstance(st, ast.Expr) and isinstance(st.value, ast.Call) and isinstance(st.value.func, ast.Attribute) and src(st.value.func.value) == 'self'
+             and len(st.value.args) == 1 and isinstance(st.value.args[0], (ast.Tuple, ast.List)) and [src(e) for e in st.value.args[0].elts] == [var]]
+    if len(calls) != 1:
+        return False
+    cname = qual_of(f).split('.')[0]
+    seen = set()
+    while cname and cname not in seen:
+        seen.add(cname)
+        if mod.has('%s.%s' % (cname, calls[0].func.attr)):
+            h = mod.func('%s.%s' % (cname, calls[0].func.attr))
+            params = [a.arg for a in h.args.args][1:]
+            hb = [x for x in h.body if not (isinstance(x, ast.Expr) and isinstance(x.value, ast.Constant))]
+            return len(params) == 1 and len(hb) == 1 and isinstance(hb[0], ast.For) and src(hb[0].iter) == params[0] and isinstance(hb[0].target, ast.Name) \
+                and not hb[0].orelse and len(hb[0].body) == 2 and _set_then_advance(hb[0].body, hb[0].target.id)
+        bases = [src(b_) for b_ in mod.cls(cname).bases] if mod.has(cname) else []
+        cname = bases[0] if bases and mod.has(bases[0]) else None
+    return False
